@@ -57,6 +57,8 @@ pub struct Interp {
     pub call_lines: Vec<u32>,
     /// true while a native function was invoked by another native (pcall(error, ...))
     pub from_native: bool,
+    /// > 0 while the innermost running function is a native one (like `!isLua(ci)`)
+    pub native_level: u32,
     pub output: Vec<u8>,
     pub capture: bool,
     pub requires: Vec<String>,
@@ -92,6 +94,7 @@ impl Interp {
             cur_line: 0,
             call_lines: Vec::new(),
             from_native: false,
+            native_level: 0,
             output: Vec::new(),
             capture: opts.capture_output,
             requires: Vec::new(),
@@ -167,18 +170,16 @@ impl Interp {
     // ---- errors ------------------------------------------------------------
     /// A VM-generated error: message gets the `input:LINE:` prefix.
     pub fn rt_error(&self, class: ErrClass, line: u32, msg: &str) -> LErr {
-        let full = format!("input:{}: {}", line, msg);
+        // luaG_runerror only adds position information when the running function is a Lua function
+        let full = if self.native_level > 0 { msg.to_string() } else { format!("input:{}: {}", line, msg) };
         Box::new(LuaError::Error { value: Value::string(full), class, line })
     }
 
     /// Error raised by a native function on behalf of its Lua caller
     /// (luaL_error: position of the calling Lua code is prepended).
     pub fn lib_error(&self, class: ErrClass, msg: &str) -> LErr {
-        if self.from_native {
-            Box::new(LuaError::Error { value: Value::string(msg.to_string()), class, line: self.cur_line })
-        } else {
-            self.rt_error(class, self.cur_line, msg)
-        }
+        let full = if self.from_native { msg.to_string() } else { format!("input:{}: {}", self.cur_line, msg) };
+        Box::new(LuaError::Error { value: Value::string(full), class, line: self.cur_line })
     }
 
     pub fn registry_native(&self, name: &str) -> Value {
@@ -252,7 +253,9 @@ impl Interp {
             return Err(self.rt_error(ErrClass::StackOverflow, self.cur_line, "stack overflow"));
         }
         self.depth += 1;
+        self.native_level += 1;
         let r = (n.f)(self, p, n, args);
+        self.native_level -= 1;
         self.depth -= 1;
         r
     }
@@ -264,7 +267,9 @@ impl Interp {
         self.depth += 1;
         let parent_act = self.cur_act;
         let saved_native = self.from_native;
+        let saved_level = self.native_level;
         self.from_native = false;
+        self.native_level = 0;
         self.call_lines.push(self.cur_line);
         let result = loop {
             if let Err(e) = self.step() {
@@ -315,6 +320,7 @@ impl Interp {
         };
         self.call_lines.pop();
         self.from_native = saved_native;
+        self.native_level = saved_level;
         self.cur_act = parent_act;
         self.depth -= 1;
         result
